@@ -66,6 +66,96 @@ theorem dedup_disjoint (raw : List RawLint) (hwf : ∀ l ∈ raw, l.start ≤ l.
   cases hx; cases hy
   omega
 
+/-! ### w26: `dedup` against the STABLE SORT of the group's lints (C13's strong theorems carried to raw lints) -/
+
+/-- the group's raw lints in the order `remove_overlaps` sorts them before its sweep: the stable
+`sort_by_key(|l| (l.span.start, !0 - l.span.end))` of C13 (`isort`), each position looked up again -/
+def sortedRaw (raw : List RawLint) : List RawLint :=
+  (isort (toOv raw)).filterMap (fun o => raw[o.id]?)
+
+/-- it is a permutation of the raw lints … -/
+theorem sortedRaw_perm (raw : List RawLint) : (sortedRaw raw).Perm raw := by
+  have := (isort_perm (toOv raw)).filterMap (fun o => raw[o.id]?)
+  rwa [toOv_lookup] at this
+
+/-- … sorted by start, longer first among equal starts … -/
+theorem sortedRaw_sorted (raw : List RawLint) :
+    (sortedRaw raw).Pairwise (fun a b => a.start < b.start ∨ (a.start = b.start ∧ b.stop ≤ a.stop)) := by
+  unfold sortedRaw
+  rw [List.pairwise_filterMap]
+  refine List.Pairwise.imp_of_mem ?_ (C13.isort_key_sorted (toOv raw))
+  intro a b ha hb hab x hx y hy
+  obtain ⟨la, hla, has, hae⟩ := mem_toOv ((isort_perm _).mem_iff.mp ha)
+  obtain ⟨lb, hlb, hbs, hbe⟩ := mem_toOv ((isort_perm _).mem_iff.mp hb)
+  rw [hla] at hx; rw [hlb] at hy
+  cases hx; cases hy
+  omega
+
+theorem filterMap_filter_of_agree {α β} (f : α → Option β) (p : α → Bool) (q : β → Bool) (l : List α)
+    (h : ∀ x ∈ l, ∃ y, f x = some y ∧ q y = p x) :
+    (l.filterMap f).filter q = (l.filter p).filterMap f := by
+  induction l with
+  | nil => rfl
+  | cons x xs ih =>
+    obtain ⟨y, hy, hq⟩ := h x List.mem_cons_self
+    have ih' := ih (fun z hz => h z (List.mem_cons_of_mem _ hz))
+    cases hp : p x
+    · simp [List.filterMap_cons, hy, List.filter_cons, hq, hp, ih']
+    · simp [List.filterMap_cons, hy, List.filter_cons, hq, hp, ih']
+
+/-- … and stable: lints with the same span keep their order in the group's output. With `sortedRaw_perm` and
+`sortedRaw_sorted` this pins `sortedRaw raw` as THE stable sort of the raw lints by `(start, !0 - end)`. -/
+theorem sortedRaw_stable (raw : List RawLint) (s e : Nat) :
+    (sortedRaw raw).filter (fun l => l.start == s && l.stop == e)
+      = raw.filter (fun l => l.start == s && l.stop == e) := by
+  have key : ∀ L : List Harper.Lint, (∀ o ∈ L, o ∈ toOv raw) →
+      (L.filterMap (fun o => raw[o.id]?)).filter (fun l => l.start == s && l.stop == e)
+        = (L.filter (fun y => y.s == s && y.e == e)).filterMap (fun o => raw[o.id]?) := by
+    intro L hL
+    apply filterMap_filter_of_agree
+    intro o ho
+    obtain ⟨l, hl, hs, he⟩ := mem_toOv (hL o ho)
+    exact ⟨l, hl, by rw [hs, he]⟩
+  unfold sortedRaw
+  rw [key _ (fun o ho => (isort_perm _).mem_iff.mp ho), C13.isort_stable,
+    ← key _ (fun o ho => ho), toOv_lookup]
+
+/-- **`remove_overlaps` on raw lints keeps a SUB-LIST of the stably sorted group output** (nothing invented,
+altered or reordered beyond the sort) -/
+theorem dedup_sublist_sortedRaw (raw : List RawLint) : (dedup raw).Sublist (sortedRaw raw) :=
+  (C13.removeOverlaps_sublist_isort (toOv raw)).filterMap _
+
+/-- the survivors are pairwise disjoint whatever the spans look like (no well-formedness needed) -/
+theorem dedup_disjoint_any (raw : List RawLint) :
+    (dedup raw).Pairwise (fun a b => a.stop ≤ b.start) := by
+  unfold dedup
+  rw [List.pairwise_filterMap]
+  refine List.Pairwise.imp_of_mem ?_ (C13.removeOverlaps_disjoint_any (toOv raw))
+  intro a b ha hb hab x hx y hy
+  obtain ⟨la, hla, _, hae⟩ := mem_toOv (C13.removeOverlaps_subset _ a ha)
+  obtain ⟨lb, hlb, hbs, _⟩ := mem_toOv (C13.removeOverlaps_subset _ b hb)
+  rw [hla] at hx; rw [hlb] at hy
+  cases hx; cases hy
+  omega
+
+theorem toOv_of_mem {raw : List RawLint} {d : RawLint} (h : d ∈ raw) :
+    ∃ o ∈ toOv raw, raw[o.id]? = some d ∧ o.s = d.start ∧ o.e = d.stop := by
+  obtain ⟨i, hi, rfl⟩ := List.mem_iff_getElem.mp h
+  refine ⟨⟨raw[i].start, raw[i].stop, i⟩, ?_, by simp [hi], rfl, rfl⟩
+  unfold toOv
+  refine List.mem_map.mpr ⟨(raw[i], i), ?_, rfl⟩
+  exact List.mem_zipIdx_iff_getElem?.mpr (by simp [hi])
+
+/-- every raw lint survives `remove_overlaps` or starts inside (or at the start of) a survivor -/
+theorem dedup_kept_or_covered (raw : List RawLint) :
+    ∀ d ∈ raw, d ∈ dedup raw ∨ ∃ k ∈ dedup raw, k.start ≤ d.start ∧ d.start < k.stop := by
+  intro d hd
+  obtain ⟨o, ho, hod, hs, he⟩ := toOv_of_mem hd
+  rcases C13.kept_or_starts_inside_kept (toOv raw) o ho with hk | ⟨k, hk, h1, h2⟩
+  · exact Or.inl (List.mem_filterMap.mpr ⟨o, hk, hod⟩)
+  · obtain ⟨l, hl, hls, hle⟩ := mem_toOv (C13.removeOverlaps_subset _ k hk)
+    exact Or.inr ⟨l, List.mem_filterMap.mpr ⟨k, hk, hl⟩, by omega, by omega⟩
+
 /-! ### `attach` -/
 
 theorem getContent_inrange {α} (sp : Span) (src : List α) (h1 : sp.start ≤ sp.stop)
